@@ -119,9 +119,6 @@ pub fn g_fv(v: &Fv) -> String {
 pub fn g_struct(fields: &[(String, Fv)]) -> String {
     g_list(fields, |(n, v)| format!("({}, {})", g_str(n), g_fv(v)))
 }
-pub fn g_pairs(p: &[(Vec<u8>, Vec<u8>)]) -> String {
-    g_list(p, |(a, b)| format!("({}, {})", g_bytes(a), g_bytes(b)))
-}
 pub fn g_hdr(ct: &Option<Vec<u8>>) -> String {
     match ct {
         None => "HAbsent".into(),
